@@ -134,7 +134,7 @@ Val = _mk_val()
 def _mk_sig():
     d = z3.Datatype('SigEv')
     d.declare('mk_sig', ('sg_pid', z3.IntSort()), ('sg_num', z3.IntSort()),
-              ('sg_t', z3.RealSort()))
+              ('sg_t', z3.RealSort()), ('sg_mode', z3.IntSort()))
     return d.create()
 
 
